@@ -338,10 +338,11 @@ class BaseSection(base.Sectionable):
             self._parent.remove(self)
             self._parent = None
         elif self._validate_parent(new_parent):
-            if self._parent is not None:
+            # Re-assigning the current parent moves the object to the end of the child-list.
+            if new_parent is self._parent:
                 self._parent.remove(self)
-            self._parent = new_parent
-            self._parent.append(self)
+            # append detaches from any previous parent once the new parent accepts the object.
+            new_parent.append(self)
         else:
             raise ValueError(
                 "odml.Section.parent: passed value is not of consistent type!"
@@ -517,9 +518,17 @@ class BaseSection(base.Sectionable):
         :param obj: Section or Property object.
         """
         if isinstance(obj, BaseSection):
+            if obj.name in self._sections:
+                raise KeyError("Object with the same name already exists! " + str(obj))
+
+            base._detach_for_move(self, obj)
             self._sections.append(obj)
             obj._parent = self
         elif isinstance(obj, BaseProperty):
+            if obj.name in self._props:
+                raise KeyError("Object with the same name already exists! " + str(obj))
+
+            base._detach_for_move(self, obj)
             self._props.append(obj)
             obj._parent = self
         elif isinstance(obj, Iterable) and not isinstance(obj, str):
@@ -570,6 +579,7 @@ class BaseSection(base.Sectionable):
                 raise ValueError("odml.Section.insert: "
                                  "Section with name '%s' already exists." % obj.name)
 
+            base._detach_for_move(self, obj)
             self._sections.insert(position, obj)
             obj._parent = self
         elif isinstance(obj, BaseProperty):
@@ -577,6 +587,7 @@ class BaseSection(base.Sectionable):
                 raise ValueError("odml.Section.insert: "
                                  "Property with name '%s' already exists." % obj.name)
 
+            base._detach_for_move(self, obj)
             self._props.insert(position, obj)
             obj._parent = self
         else:
